@@ -35,8 +35,14 @@ func typeStr(t reflect.Type) string {
 		if t.Elem().Kind() == reflect.Uint8 {
 			return "bytes"
 		}
+		if t.Elem() == t {
+			return "[]self"
+		}
 		return "[]" + typeStr(t.Elem())
 	case reflect.Map:
+		if t.Elem() == t || t.Key() == t {
+			return "map[" + typeStr(t.Key()) + "]self" // type T map[K]T
+		}
 		return "map[" + typeStr(t.Key()) + "]" + typeStr(t.Elem())
 	case reflect.Interface:
 		return "iface"
@@ -45,8 +51,9 @@ func typeStr(t reflect.Type) string {
 }
 
 type dprinter struct {
-	ids map[uintptr]int
-	b   strings.Builder
+	ids  map[uintptr]int
+	open map[uintptr]bool
+	b    strings.Builder
 }
 
 func (p *dprinter) val(v reflect.Value) {
@@ -125,6 +132,17 @@ func (p *dprinter) val(v reflect.Value) {
 		}
 		p.b.WriteString("]")
 	case reflect.Map:
+		if v.Len() > 0 { // a map may contain itself (through a back-reference): print it once per path
+			if p.open == nil {
+				p.open = map[uintptr]bool{}
+			}
+			if p.open[v.Pointer()] {
+				p.b.WriteString("m[cycle]")
+				return
+			}
+			p.open[v.Pointer()] = true
+			defer delete(p.open, v.Pointer())
+		}
 		p.b.WriteString("m[" + typeStr(v.Type().Key()) + " " + typeStr(v.Type().Elem()) + ":")
 		type kv struct {
 			ks string
@@ -132,7 +150,7 @@ func (p *dprinter) val(v reflect.Value) {
 		}
 		var kvs []kv
 		for _, k := range v.MapKeys() {
-			kp := &dprinter{ids: map[uintptr]int{}}
+			kp := &dprinter{ids: map[uintptr]int{}, open: p.open}
 			kp.val(k)
 			kvs = append(kvs, kv{kp.b.String(), k})
 		}
@@ -178,8 +196,14 @@ func gtypeStr(t reflect.Type, structs map[reflect.Type]bool) string {
 		if t.Elem().Kind() == reflect.Uint8 {
 			return "bin"
 		}
+		if t.Elem() == t {
+			return "o"
+		}
 		return "(sl " + gtypeStr(t.Elem(), structs) + ")"
 	case reflect.Map:
+		if t.Elem() == t || t.Key() == t {
+			return "o" // type T map[K]T: not a finite type expression of the model
+		}
 		return "(mp " + gtypeStr(t.Key(), structs) + " " + gtypeStr(t.Elem(), structs) + ")"
 	case reflect.Interface:
 		return "if"
